@@ -59,7 +59,8 @@ http://www.hyperelliptic.org/efd. Там же можно найти соглаш
 	(gf2IsIn(ecX(a), (ec)->f) && gf2IsIn(ecY(a, (ec)->f->n), (ec)->f))
 
 #define ec2SeemsOn3(a, ec)\
-	(ec2SeemsOnA(a, ec) && gf2IsIn(ecZ(a, (ec)->f->n), (ec)->f))
+	(gf2IsIn(ecZ(a, (ec)->f->n), (ec)->f) &&\
+		(wwIsZero(ecZ(a, (ec)->f->n), (ec)->f->n) || ec2SeemsOnA(a, ec)))
 
 /*
 *******************************************************************************
